@@ -14,7 +14,7 @@ T = {
  'C12': ('exploration', 'seeded search over mutation-API histories (all listed operations, CreateMap/DestroyMap anywhere) on three allocator flavours x SimMem (realloc move vs in place, stale fill, guard pages, StringCopy failure); oracle = ordered-container reference model compared by full structural walk and lookup agreement after every operation, two memory environments',
          'Histories are sampled (<=60 ops, small key alphabet); RemoveMember of a duplicated key while a map exists is not issued (multimap may pick either).', '3/C12'),
  'C13': ('exploration', 'seeded search over histories incl. document move/swap/reset, Parse/ParseOnDemand/ParseSchema on valid and invalid text, CopyFrom, teardown after a random prefix (crash analogue) on allocators that really free; oracle = SimMem ledger (exactly-once, provider, nothing live at quiescence), freed blocks become PROT_NONE, model walk of ALL documents after every op (copy independence), caller buffers released right after each call',
-         'One known finding (D5, earlier ParseSchema text buffers) is recognised by an exact signature; every other leak is a violation.', '3/C13'),
+         'Any block left allocated is a violation (the former known finding D5 is repaired by /repo 08c86de).', '3/C13'),
  'C14': ('fault_enumeration', 'enumeration of length 0..130 x both operands at distances 0..40(+) from an unmapped page x mismatch position x equal/different bytes after the operands for InlinedMemcmpEq/InlinedMemcmp of every kernel in the build (static AVX2, static SSE4.2, both clones in the dispatch build), oracle = memcmp; plus API lookups (both FindMember overloads, HasMember, with/without map) on keys and probes ending at guard pages',
          'Interior distance pairs (both > 8) are thinned to every third; contents sampled; one run in 400 compares operands of 2^32+ bytes (zero pages).', '3/C14'),
  'C15': ('exploration', 'the same seeded plans (Parse incl. numbers of every digit count, GetOnDemand, UpdateLazy, build+Serialize; inputs shifted 0..65 bytes) are executed in static AVX2, static SSE4.2, runtime dispatch, ASan AVX2 and ASan SSE4.2 builds; the driver compares per-run observation digests (error code/offset exempted only when the reference parser locates the first fault inside a string literal)',
